@@ -6,6 +6,21 @@ VERIF = os.path.dirname(os.path.abspath(__file__))
 
 # id -> (level, technique, text, note, design section)
 CHECKS = {
+    "C05": ("exploration",
+            "runtime monitoring: offline stream oracle (subsequence of unique hand-offs, order, framing) + conservation identity over counters, real destination to loopback endpoint, under -race",
+            "A real carbon route built from a command string (iobuf 1B..2MB, connbuf 1..30000, flush 1..100ms, plain and pickle) sends unique lines of generated lengths (5B..4x iobuf) in bursts and trickles to a loopback endpoint that records the byte stream; offline the stream must be exactly the handed lines (or one >I-prefixed pickle per line), each once, in hand-off order, newline-terminated, no tearing/merging; absent lines == slow_conn counter delta; direction=out == lines received. Held on the configurations and schedules produced.",
+            "Healthy = loopback endpoint reading as fast as it can; runs with a reconnect are set aside as inconclusive; pickle frames decoded with og-rek here (CPython decoding is C16).",
+            "DESIGN.md §4 C05"),
+    "C06": ("exploration",
+            "runtime monitoring: stall detector over every Table.Dispatch call (two stack samples of a parked goroutine) + conservation identities at steady states, scripted misbehaving endpoints, under -race",
+            "Fourteen endpoint scripts (absent, refuse-then-appear, black hole, throttled, healthy with tiny buffers / 8 dispatchers, abortive and graceful close early/late, appear-then-abort) x generated queue/buffer settings; 1-8 dispatchers push traffic beyond every buffer through a real table with a second healthy route; every Dispatch call is timed and a call in flight beyond the stall bound is a violation only when its goroutine is parked at the same repo frame in two samples; at steady states handed == received + slow_conn (connection up) and handed == conn_down_no_spool (down, no spool); the second route must see every line.",
+            "'Never' restated as bounded progress over the N hand-offs observed; identities only asserted in steady states; slow-but-returning calls on a loaded machine are reported inconclusive.",
+            "DESIGN.md §4 C06"),
+    "C07": ("exploration",
+            "runtime monitoring: set-difference oracle over unique line ids per outage schedule + drop counters, seeded scheduling delays injected at tag-guarded hook points, under -race",
+            "Up/down schedules of a loopback endpoint (outage before first connect, single/repeated outages, outage during unspooling, graceful and abortive closes) with traffic running across every transition against a real destination with spool=true; after the last recovery the backlog is awaited by bounded steps (spool backlog accessor + received set); the number of distinct lines never received must be <= slow_conn + slow_spool deltas, every complete received line must be a handed one, conn_down_no_spool must stay 0. Seeded 0-3 ms delays at the destination hook points force the conn-writer / redo-collector / spool-writer hand-over to interleave on every run.",
+            "Duplicates allowed, order not checked; outages are detected immediately on loopback so the >2x keep-safe-period case is not reproduced; backlog read through an overlay accessor.",
+            "DESIGN.md §4 C07"),
     "C08": ("fault_enumeration",
             "runtime monitoring with fault enumeration: every crash-point hook firing of generated histories snapshots the spool directory; a child reopens it with the real code; oracle over delivered run vs E/H/Hs/S; real SIGKILL sample",
             "Every firing of the tag-guarded crash-point hook (after each file write, fsync, meta tmp create/write, rename, segment remove, bad-file rename, rollover, and at rest) in every generated put/get history is treated as the instant the relay dies: the directory is copied, a child process reopens it with the real DiskQueue, drains it and the delivered run is judged against what the harness knew at that instant (contiguous byte-identical run, starts no later than the first unhanded message and no earlier than what was consumed at the last completed sync, reaches the last message written before that sync); then fresh messages are enqueued and drained. A sample of histories is also run in a child that really SIGKILLs itself at the point. Enumerates all crash points of the histories generated, not all histories.",
@@ -16,6 +31,16 @@ CHECKS = {
             "Random operation histories (put/get/close+reopen, sizes 0..3 segments, segment limit from 1 byte, syncEvery from 1) are executed against the real nsqd.DiskQueue; after every operation the I/O loop is awaited at its idle point and every delivered message, Depth() and the ready/empty state are compared with a slice model; plus concurrent producer histories checked for per-producer order and exactly-once. Held-on-N-histories, not a proof.",
             "Trusts the tag-guarded idle hook placement, tmpfs as the filesystem, and that a clean restart is Close()+NewDiskQueue in one process.",
             "DESIGN.md §4 C09"),
+    "C14": ("exploration",
+            "runtime monitoring of the real relay binary (-race) as a child process: exit status + output scan + liveness probe after every hostile batch; every batch logged before it is sent",
+            "The real binary is started on generated TOML configurations (documented options with boundary values); once listening it receives batches of hostile bytes on the plain TCP, UDP and pickle ports, boundary / mutated / random admin commands on the TCP admin port and HTTP admin DELETEs, each followed by valid traffic exercising what was built and a `view` probe; any exit, Go panic or fatal error after the listeners are up (or a Go panic at start-up) is a violation whose witness is the configuration and the last batches. AMQP bodies go through the real consume loop in an in-process child. A universal negative: the evidence lists what was tried.",
+            "Exit before listening with an error message = configuration rejected (allowed); buffer sizes kept below what the machine can allocate; no AMQP/Kafka/PubSub services here.",
+            "DESIGN.md §4 C14"),
+    "C18": ("exploration",
+            "runtime monitoring: snapshot-immutability invariant at white-box accessor, forced interleavings via tag-guarded after-load hooks with exact delivery counts, free-running dispatch x admin ops under the race detector (reports scoped to mutator-vs-dispatch), sequential model of the table view",
+            "A: slices loaded from the table/route snapshot are compared element-wise after every delete (all list lengths 1..6 x indexes, five list kinds, add/delete histories). B: a dispatcher is held right after loading the snapshot while the delete happens, then released: every entry that exists before and after must see the line exactly once (capture routes, non-idempotent rewriters, counting aggregators, real destinations, real route deleted); a dispatcher that never returns is confirmed with two stack samples. C: 8 dispatchers x random admin operations: stable routes/destinations must get every line exactly once; race reports with one side in a mutator and the other in a dispatch path count. E: Table.Snapshot() vs model after each operation of random histories (index >= len rejected, unknown route no-op).",
+            "Capture routes stand for routes at table level; refusing-port destinations make each hand-off visible once in a counter; forced interleavings cover the after-load point only.",
+            "DESIGN.md §4 C18"),
 }
 
 NOT_APPLICABLE = {
